@@ -12,8 +12,10 @@
    spd.nboff == 0 alone).
 
    skeletons/oer_decoder.c:oer_open_type_get() cuts the container out by its length determinant and runs the inner
-   decoder on exactly those octets; it returns len_len + container_len when the decoder says RC_OK and does NOT look
-   at how much the decoder consumed ([oer_dec_open]; [oer_dec_open_strict] is what X.696 means). *)
+   decoder on exactly those octets; it returns len_len + container_len when the decoder says RC_OK AND consumed the
+   whole container (`dr.code == RC_OK && dr.consumed == container_len`, since C18-fix-9; before that repair `consumed`
+   was not looked at: finding C18-oer-open-type-leftover, fixed); anything else frees the value and fails.
+   [oer_dec_open] is that reader: what X.696 means. *)
 From Coq Require Import ZArith List Bool.
 From A1 Require Import Base.Bytes Rt.Types Rt.Uper Rt.Oer.
 Import ListNotations.
@@ -40,20 +42,6 @@ Definition uper_dec_open_with (test : list bool -> list bool -> bool) (t : ty) (
 (* ---- OER ---- *)
 
 Definition oer_dec_open (t : ty) (bs : list Z) : option (val * list Z) :=
-  match oer_get_length bs with
-  | Some (n, r) =>
-      match take n r with
-      | Some (c, r') =>
-          match oer_dec t c with
-          | Some (v, _) => Some (v, r')
-          | None => None
-          end
-      | None => None
-      end
-  | None => None
-  end.
-
-Definition oer_dec_open_strict (t : ty) (bs : list Z) : option (val * list Z) :=
   match oer_get_length bs with
   | Some (n, r) =>
       match take n r with
